@@ -1069,3 +1069,72 @@ pub fn fastpath(rec: &mut Recorder, rng: &mut Rng, thorough: bool) {
     }
     rec.add("fastpath_sets", made as u64);
 }
+
+// ---------------------------------------------------------------- the five-phase solver, op for op (C02 C06 C07): the operation vector
+// recorded by IntermediateSymbolDecoder::execute() against the Lean model of pi_solver.rs
+pub fn solver(rec: &mut Recorder, rng: &mut Rng, thorough: bool) {
+    let opsdigest = |ops: &Option<Vec<rq::SymbolOps>>| -> String {
+        match ops { None => "none".to_string(), Some(o) => { let s = ops_str(o); format!("{} {}", o.len(), fnv(s.as_bytes())) } }
+    };
+    // encoder-side systems
+    let t2 = table_k();
+    let ks: Vec<u32> = if thorough { t2.iter().copied().filter(|k| *k <= 3000).collect() } else {
+        let mut v: Vec<u32> = t2.iter().copied().filter(|k| *k <= 260).collect();
+        for k in [511u32, 1002, 1649] { v.push(k); }
+        v
+    };
+    let checked = checked_build();
+    for k in ks {
+        if checked && k > 300 { continue; } // checked builds self-verify in O(L^3)
+        for (be, thr) in [("dense", u32::MAX), ("sparse", 0u32)] {
+            if be == "dense" && k > 1100 && !thorough { continue; }
+            let r = guarded(move || SourceBlockEncodingPlan::verif_generate(k as u16, thr).map(|p| p.verif_operations().to_vec()));
+            match r {
+                Ok(ops) => rec.put(&format!("pisolve {k} - {be}"), &opsdigest(&ops)),
+                Err(_) => { rec.impl_violation(format!("solver panics for the encoder system of K'={k} on the {be} back-end")); rec.put(&format!("pisolve {k} - {be}"), "err"); }
+            }
+            rec.count(&format!("solver_enc_{be}"));
+        }
+    }
+    // decoder-side systems: erasures, overhead 0..3, ISIs over the 24-bit range, incl. rank-deficient sets
+    let n = if thorough { 1500 } else { 200 };
+    let extra = if thorough { 12000 } else { 1500 }; // small K, no overhead: harvests sets on which the solver gives up
+    for it in 0..(n + extra) {
+        let small = it >= n;
+        let k = if small { rng.range(5, 26) as u32 } else { pick_k(rng, if it % 20 == 19 { 300 } else { 90 }) };
+        let kp = rq::extended_source_block_symbols(k);
+        let lost = rng.range(1, (k as u64 / 3).max(1)) as usize;
+        let mut idx: Vec<u32> = (0..k).collect();
+        rng.shuffle(&mut idx);
+        let mut src: Vec<u32> = idx[lost.min(k as usize)..].to_vec();
+        src.sort();
+        let h: usize = if small { 0 } else { match rng.below(8) { 0..=3 => 0, 4..=5 => 1, 6 => 2, _ => 12 } };
+        let mut reps = std::collections::BTreeSet::new();
+        while reps.len() < lost.min(k as usize) + h { reps.insert(pick_repair_esi(rng, k)); }
+        let mut isis: Vec<u32> = src.clone();
+        isis.extend(k..kp);
+        let mut rep: Vec<u32> = reps.into_iter().map(|e| e + (kp - k)).collect();
+        rng.shuffle(&mut rep);
+        isis.extend(rep);
+        for be in ["dense", "sparse"] {
+            if small && (be == "dense") != (it % 2 == 0) { continue; }
+            let isis2 = isis.clone();
+            let sparse = be == "sparse";
+            let r = guarded(move || {
+                let rows = (rq::num_ldpc_symbols(k) + rq::num_hdpc_symbols(k)) as usize + isis2.len();
+                let d = raptorq::SymbolSlab::with_zeros(rows, 1);
+                if sparse {
+                    let (a, hd) = rq::generate_constraint_matrix::<SparseBinaryMatrix>(k, &isis2);
+                    rq::fused_inverse_mul_symbols(a, hd, d, k).1
+                } else {
+                    let (a, hd) = rq::generate_constraint_matrix::<DenseBinaryMatrix>(k, &isis2);
+                    rq::fused_inverse_mul_symbols(a, hd, d, k).1
+                }
+            });
+            match r {
+                Ok(ops) => { rec.count(if ops.is_some() { "solver_dec_solved" } else { "solver_dec_gave_up" }); rec.put(&format!("pisolve {k} {} {be}", list(&isis)), &opsdigest(&ops)); }
+                Err(_) => { rec.impl_violation(format!("solver panics on a decoder-side system K={k} ({be})")); rec.put(&format!("pisolve {k} {} {be}", list(&isis)), "err"); }
+            }
+        }
+    }
+}
